@@ -214,7 +214,7 @@ def compute_step_part(repo, run, rid, rule_id="C02.2"):
     # semantic verdict (E-EIN: the stage loop interpreted with concrete stages and abstract state axes); the normal-form comparisons below decide only what lies
     # outside its domain, and are overruled by a definite 'ok' (another way of writing the same stage formula is not a violation)
     from .. import ein
-    verdict, detail = ein.compute_step_verdict(fn)
+    verdict, detail = ein.with_stage_counts(ein.compute_step_verdict, (3,) if getattr(run, 'tier', 'quick') == 'quick' else (2, 3, 4, 5, 6), fn)
 
     class _R:
         def judged(self, rid_, what, ok=True, **kw):
@@ -334,7 +334,7 @@ def stage_args(repo, run, rule_id="C02.2"):
         # semantic verdict first (E-EIN: stage axes concrete, state axes abstract); the normal-form comparison below is the fallback for what lies outside its domain
         if meth == "algebraic_system":
             from .. import ein
-            verdict, detail = ein.stage_system_verdict(f2)
+            verdict, detail = ein.with_stage_counts(ein.stage_system_verdict, (3,) if getattr(run, 'tier', 'quick') == 'quick' else (2, 3, 4, 5, 6), f2)
             if verdict == "ok":
                 for what in ("time argument", "state argument"):
                     run.judged(rid, "%s %s (interpreted over %d concrete stages, abstract state axes): %s" % (meth, what, ein.NS, detail[:80]), ok=True)
